@@ -84,3 +84,27 @@ Proof.
   - assert (E : t_vars (MakeUnion seen) = seen) by (unfold MakeUnion; apply t_vars_set_vars).
     rewrite E, set_vars_union, IH by exact Hr. rewrite <- app_assoc. reflexivity.
 Qed.
+
+(* C15: the union built from the argument types of all call sites covers each of them *)
+Lemma distinct_kinds_covers l : forall seen a, In a l ->
+  exists v, In v (seen ++ distinct_kinds seen l) /\ same_kind v a = true.
+Proof.
+  induction l as [|x r IH]; intros seen a H; [destruct H|]. cbn [distinct_kinds].
+  destruct H as [->|H].
+  - destruct (existsb (fun s => same_kind s a) seen) eqn:E.
+    + apply existsb_exists in E as [v [Hv Hk]]. exists v. split; [apply in_or_app; left; exact Hv | exact Hk].
+    + exists a. split; [apply in_or_app; right; left; reflexivity|].
+      unfold same_kind. rewrite String.eqb_refl. destruct (t_tag a); reflexivity.
+  - destruct (existsb (fun s => same_kind s x) seen).
+    + exact (IH seen a H).
+    + destruct (IH (seen ++ [x]) a H) as [v [Hv Hk]]. exists v. split; [|exact Hk].
+      rewrite <- app_assoc in Hv. exact Hv.
+Qed.
+
+Theorem parameter_union_covers n args a : forallb scalar args = true -> In a args ->
+  exists v, In v (t_vars (fold_left (fun acc v => append_variant (S n) acc v) args (MakeUnion []))) /\ same_kind v a = true.
+Proof.
+  intros Hs Ha. rewrite (union_of_scalars n args [] Hs). cbn [app].
+  assert (E : t_vars (MakeUnion (distinct_kinds [] args)) = distinct_kinds [] args) by (unfold MakeUnion; apply t_vars_set_vars).
+  rewrite E. exact (distinct_kinds_covers args [] a Ha).
+Qed.
